@@ -21,7 +21,9 @@ RULE = ("format_num: floats over 1e-12..1e15 (random mantissas, +-1 ulp around p
 TRUSTED = ["hand model model/Render.v (exact decimal rounding = float round()+format() on binary64: validated, not proved)",
            "xml.etree.ElementTree escaping", "C locale (no thousands separator by default)"]
 ASSUMES = ["the float multiplication val * 100 (pct) and math.log10 / round() are idealised; validated for sig <= 6",
-           "dataframe conversions (pyarrow / pandas / polars) only through the differential"]
+           "dataframe conversions: hand model model/Views.v (columns = union of keys in order of first appearance, cells = "
+           "row lookup) tied by comparing columns and null cells with to_arrow / to_pandas / to_polars; the constructors of "
+           "pyarrow / pandas / polars themselves only through the differential"]
 
 
 def ulp_step(x, k):
@@ -117,6 +119,7 @@ def correspondence(ctx):
                    f"model={got!r} real={exp!r}", case)
         ctx.sample({**case, "text": exp}, limit=5)
     _tables(ctx)
+    _views(ctx)
 
 
 # ------------------------------------------------------------------ tables
@@ -194,6 +197,59 @@ def view_fails(obj, dicts):
                     fails.append(f"{view} row {i} key {k!r}: {r.get(k)!r} but to_dicts has {d.get(k)!r}")
                     break
     return fails
+
+
+VIEWS_HEADER = ("From Coq Require Import ZArith String Ascii List Bool.\nFrom TT Require Import model.Render model.Views.\n"
+                "Import ListNotations.\n"
+                "Definition codes (s : string) : list Z := map (fun c => Z.of_nat (nat_of_ascii c)) (to_list s).\n"
+                "Definition nulls (rows : list (list (string * unit))) : string := of_list (flat_map (fun r => map (fun c => "
+                "match c with Some _ => \"1\"%char | None => \"0\"%char end) r) (snd (view rows))).\n"
+                "Definition cols (rows : list (list (string * unit))) : string := join (String (ascii_of_nat 10) EmptyString) (fst (view rows)).\n")
+
+
+def _views(ctx):
+    """columns and null pattern of to_arrow / to_pandas / to_polars = model/Views.view on the key lists of to_dicts()"""
+    import tea_tasting as tt
+    ok, out, dt, failed = H.make(["model/Views.vo"])
+    if not ctx.oblige(ok, "correspondence", "build of model/Views.vo", out):
+        return
+    cases, terms, expect = [], [], []
+    for i in range(ctx.n(40, 800)):
+        er = rand_result(ctx.rng)
+        obj = er if ctx.rng.random() < 0.6 else tt.experiment.ExperimentResults({(0, 1): er, ("a", "b"): rand_result(ctx.rng)})
+        dicts = obj.to_dicts()
+        keylists = [list(d) for d in dicts]
+        rt = "[" + "; ".join("[" + "; ".join(f"({H.slit(k)}, tt)" for k in ks) + "]" for ks in keylists) + "]"
+        try:
+            ar = obj.to_arrow()
+            observed = {"to_arrow": list(ar.column_names), "to_pandas": list(obj.to_pandas().columns),
+                        "to_polars": list(obj.to_polars().columns)}
+            pattern = "".join("0" if r.get(k) is None else "1" for r in ar.to_pylist() for k in ar.column_names)
+        except Exception as e:  # noqa: BLE001 - mixed value types under one key (outside the property's quantifier)
+            ctx.count("views_skipped:" + type(e).__name__)
+            continue
+        cases.append({"keys": keylists, "what": "columns"})
+        terms.append(f"codes (cols {rt})")
+        expect.append(observed)
+        cases.append({"keys": keylists, "what": "nulls"})
+        terms.append(f"codes (nulls {rt})")
+        expect.append(pattern)
+    res, errs = H.coq_eval_shards("c16v", VIEWS_HEADER, terms)
+    for e in errs:
+        ctx.oblige(False, "correspondence", "vm_compute evaluation (views)", e)
+    for case, r, exp in zip(cases, res, expect):
+        if r is None:
+            continue
+        got = decode(r)
+        if case["what"] == "columns":
+            want = got.split("\n") if got else []
+            bad = {v: c for v, c in exp.items() if c != want}
+            ctx.oblige(not bad, "correspondence", "columns of to_arrow / to_pandas / to_polars = model/Views.union_keys (order of first appearance)",
+                       f"model={want} real={bad}", case)
+        else:
+            ctx.oblige(got == exp, "correspondence", "null cells of to_arrow = model/Views.view (a key absent from a row is null)",
+                       f"model={got} real={exp}", case)
+    ctx.count("views", len(cases))
 
 
 def _tables(ctx):
